@@ -213,6 +213,101 @@ pub fn gen_grammar(r: &mut Rng) -> Vec<u8> {
     pkt
 }
 
+/// Tail shapes: a well-formed packet whose LAST record (every known type in turn) has an inner length
+/// (label, character-string, TXT item, NSEC bitmap length) or its RDLENGTH overstating what the
+/// datagram still holds by 1..3 bytes, with 0..2 stray bytes behind it - the reads at the very end of
+/// the buffer, where an off-by-a-header-byte bound check turns into an out-of-range slice.
+pub fn gen_tail(r: &mut Rng) -> Vec<u8> {
+    CLEAN.with(|c| c.set(true));
+    let k = *r.pick(&[0u16, 0, 1, 2]);
+    let in_answers = r.chance(2, 3);
+    let mut pkt = if in_answers { header(0, 0x8400, 0, k + 1, 0, 0) } else { header(0, 0x8400, 0, k, 0, 1) };
+    let mut offs = vec![];
+    let mut last_rd_start = 0usize;
+    let mut last_rd_len = 0usize;
+    let last_ty = *r.pick(&[47u16, 47, 47, 13, 13, 16, 16, 33, 12, 5, 1, 28]);
+    for i in 0..(k + 1) {
+        offs.push(pkt.len());
+        let n = gen_name(r, &pkt, &offs[..offs.len() - 1]);
+        pkt.extend(n);
+        let ty = if i == k { last_ty } else { *r.pick(&[1u16, 12, 16, 28, 33, 47, 13]) };
+        push_u16(&mut pkt, ty);
+        push_u16(&mut pkt, *r.pick(&[1u16, 0x8001]));
+        pkt.extend_from_slice(&120u32.to_be_bytes());
+        let rd = gen_rdata(r, ty, &pkt, &offs);
+        push_u16(&mut pkt, rd.len() as u16);
+        last_rd_start = pkt.len();
+        last_rd_len = rd.len();
+        if matches!(ty, 12 | 5 | 47) {
+            offs.push(last_rd_start);
+        }
+        pkt.extend(rd);
+    }
+    CLEAN.with(|c| c.set(false));
+    let cut = (r.range(1, 4) as usize).min(last_rd_len);
+    let stray = r.below(3) as usize;
+    let set_rdlen = |p: &mut Vec<u8>, n: usize| {
+        let b = (n as u16).to_be_bytes();
+        p[last_rd_start - 2] = b[0];
+        p[last_rd_start - 1] = b[1];
+    };
+    match r.below(5) {
+        0 => {
+            // inner lengths overstate: RDATA cut short, RDLENGTH says what is there
+            pkt.truncate(pkt.len() - cut);
+            set_rdlen(&mut pkt, last_rd_len - cut);
+        }
+        1 => {
+            // RDLENGTH overstates: RDATA cut short, RDLENGTH as before
+            pkt.truncate(pkt.len() - cut);
+        }
+        2 => {
+            // cut, RDLENGTH says what is there, stray bytes behind the record
+            pkt.truncate(pkt.len() - cut);
+            set_rdlen(&mut pkt, last_rd_len - cut);
+            pkt.extend(r.bytes(stray));
+        }
+        3 => {
+            // cut, RDLENGTH as before, fewer stray bytes than were cut
+            pkt.truncate(pkt.len() - cut);
+            pkt.extend(r.bytes(stray.min(cut.saturating_sub(1))));
+        }
+        _ => {
+            // the last length byte inside the RDATA raised by 1..3 (NSEC bitmap length, last
+            // character-string / TXT item), RDLENGTH exact
+            let rd_end = last_rd_start + last_rd_len;
+            let pos = match last_ty {
+                47 => {
+                    // block length byte: bitmap is the tail, its length byte sits before it
+                    let mut p = None;
+                    for bl in [1usize, 4, 5, 6, 32] {
+                        if last_rd_len >= bl + 2 && pkt[rd_end - bl - 1] as usize == bl && pkt[rd_end - bl - 2] == 0 {
+                            p = Some(rd_end - bl - 1);
+                        }
+                    }
+                    p
+                }
+                13 | 16 => {
+                    // walk the character strings to the last one
+                    let mut i = last_rd_start;
+                    let mut lastp = None;
+                    while i < rd_end {
+                        lastp = Some(i);
+                        i += 1 + pkt[i] as usize;
+                    }
+                    lastp
+                }
+                _ => None,
+            };
+            if let Some(p) = pos {
+                pkt[p] = pkt[p].saturating_add(cut as u8);
+            }
+            pkt.extend(r.bytes(stray.min(cut.saturating_sub(1))));
+        }
+    }
+    pkt
+}
+
 /// Valid packet built by the crate's own encoder.
 pub fn gen_valid(r: &mut Rng) -> Vec<u8> {
     use parser::{MsgDesc, RDataView, RecDesc};
@@ -407,6 +502,10 @@ pub fn generate(r: &mut Rng, tier: &str, emit: &mut dyn FnMut(String)) {
     }
     for _ in 0..(if thorough { 4000 } else { 400 }) {
         let p = gen_pointer_shapes(r);
+        emit(format!("decode {}", hex(&p)));
+    }
+    for _ in 0..(if thorough { 30_000 } else { 3000 }) {
+        let p = gen_tail(r);
         emit(format!("decode {}", hex(&p)));
     }
     // amplification shapes: long pointer chains referenced by many records, 9000 bytes
